@@ -969,7 +969,43 @@ def m_enumerate(interp, fr, it, start=0):
 def m_zip(interp, fr, *its, **kw):
     if any(isinstance(i, Sym) for i in its):
         raise Undecided("zip over a symbolic iterable")
-    return list(zip(*[list(interp.iterate(i)) for i in its]))
+    if kw:
+        raise Undecided("zip(strict=...)")
+    iters = [iter(interp.iterate(i)) for i in its]
+
+    def lockstep():          # lazy, like zip: stops at the first exhausted iterable, in argument order
+        while iters:
+            row = []
+            for it_ in iters:
+                try:
+                    row.append(next(it_))
+                except StopIteration:
+                    return
+            yield tuple(row)
+    return lockstep()
+
+
+def m_iter(interp, fr, *args):
+    if len(args) == 1:
+        if isinstance(args[0], Sym):
+            raise Undecided("iter() of a symbolic value")
+        return iter(interp.iterate(args[0]))
+    if len(args) != 2:
+        raise PyRaise(TypeError, "iter expected 1 or 2 arguments")
+    fn, sentinel = args
+    import ast as _ast
+
+    def until_sentinel():    # iter(callable, sentinel): the comparison with the sentinel is a decision of the path
+        n = 0
+        while True:
+            n += 1
+            if n > getattr(interp, "max_unwind", 64):
+                raise Undecided("iter(callable, sentinel) unwound beyond the limit")
+            v = fn()
+            if interp.truth(interp.compare(_ast.Eq(), v, sentinel)):
+                return
+            yield v
+    return until_sentinel()
 
 
 def m_list(interp, fr, *args):
@@ -1103,6 +1139,7 @@ def base_models():
         bytes: m_bytes,
         enumerate: m_enumerate,
         zip: m_zip,
+        iter: m_iter,
         list: m_list,
         any: m_any,
         all: m_all,
